@@ -106,11 +106,178 @@ def _inline_at(f, bi, g):
         elif t["k"] == "resume" and uw is not None:
             blk["term"] = {"k": "goto", "t": uw, "ln": ln}
     f["blocks"].extend(gb)
+    if cont is not None and dest is not None and not dest.get("pr"):
+        try:
+            _thread_returns(f, boff, len(gb), off, dest["l"], cont, ln, bi)
+        except (KeyError, IndexError, TypeError):
+            pass        # threading is an optimisation of precision only
     # the call block: bind the arguments, jump to the callee's entry
     head = f["blocks"][bi]
     for i, a in enumerate(call["args"]):
         head["st"].append({"k": "assign", "p": {"l": off + 1 + i}, "r": {"k": "use", "o": a}, "ln": ln, "inl": True})
     head["term"] = {"k": "goto", "t": boff, "ln": ln, "inlined": g["id"]}
+
+
+def _map_place(p, m):
+    if p["l"] in m:
+        p["l"] = m[p["l"]]
+    for e in p.get("pr", ()):
+        if isinstance(e, dict) and e.get("ix") in m:
+            e["ix"] = m[e["ix"]]
+
+
+def _map_operand(o, m):
+    if isinstance(o, dict):
+        if "cp" in o:
+            _map_place(o["cp"], m)
+        elif "mv" in o:
+            _map_place(o["mv"], m)
+
+
+def _map_block(blk, m):
+    for st in blk["st"]:
+        if st["k"] == "assign":
+            _map_place(st["p"], m)
+            r = st["r"]
+            for key in ("o", "a", "b"):
+                if key in r:
+                    _map_operand(r[key], m)
+            if "p" in r and isinstance(r["p"], dict):
+                _map_place(r["p"], m)
+            for o in r.get("ops", ()):
+                _map_operand(o, m)
+        elif st["k"] == "setdiscr":
+            _map_place(st["p"], m)
+        elif st["k"] in ("dead", "live") and st.get("l") in m:
+            st["l"] = m[st["l"]]
+    t = blk["term"]
+    if t["k"] == "switch":
+        _map_operand(t["o"], m)
+    elif t["k"] == "call":
+        for a in t["args"]:
+            _map_operand(a, m)
+        if t.get("dest") is not None:
+            _map_place(t["dest"], m)
+    elif t["k"] == "drop":
+        _map_place(t["p"], m)
+    elif t["k"] == "assert":
+        _map_operand(t["cond"], m)
+
+
+def _uses_local(blk, l):
+    hit = [False]
+
+    def pl(p):
+        if p["l"] == l:
+            hit[0] = True
+    def op(o):
+        if isinstance(o, dict):
+            if "cp" in o:
+                pl(o["cp"])
+            elif "mv" in o:
+                pl(o["mv"])
+    for st in blk["st"]:
+        if st["k"] == "assign":
+            pl(st["p"])
+            r = st["r"]
+            for key in ("o", "a", "b"):
+                if key in r:
+                    op(r[key])
+            if "p" in r and isinstance(r["p"], dict):
+                pl(r["p"])
+            for o in r.get("ops", ()):
+                op(o)
+        elif st["k"] == "setdiscr":
+            pl(st["p"])
+    t = blk["term"]
+    if t["k"] == "switch":
+        op(t["o"])
+    elif t["k"] == "call":
+        for a in t["args"]:
+            op(a)
+        if t.get("dest") is not None:
+            pl(t["dest"])
+    elif t["k"] == "drop":
+        pl(t["p"])
+    elif t["k"] == "assert":
+        op(t["cond"])
+    return hit[0]
+
+
+def _thread_returns(f, boff, ng, off, dest_l, cont, ln, call_bb=-1):
+    """Path sensitivity across the seam.  The callee's result reaches the caller's continuation through one join (the callee's
+    return block); the caller then usually branches on it at once (`if helper(..)`, `match helper(..)`, `helper(..)?`).  Each
+    predecessor of the return block that stores the result gets its own copy of the continuation block, with the result in
+    fresh single-assignment locals, so that the caller's branch is seen to test exactly what that path computed.  For `?`
+    (Try::branch) a path that stores a known variant jumps straight to the matching arm."""
+    blocks = f["blocks"]
+    cb = blocks[cont]
+    ret_blocks = [i for i in range(boff, boff + ng) if blocks[i]["term"].get("k") == "goto" and blocks[i]["term"].get("t") == cont
+                  and blocks[i]["st"] and blocks[i]["st"][-1].get("inl")]
+    if len(ret_blocks) != 1:
+        return
+    rb = ret_blocks[0]
+    # predecessors inside the inlined copy, following trivial goto chains
+    preds = {}
+    for i in range(boff, boff + ng):
+        t = blocks[i]["term"]
+        if t["k"] == "goto" and t["t"] == rb and i != rb:
+            preds[i] = True
+    if len(preds) < 2:
+        return
+    # the stores of the result on those paths
+    stores = {}
+    for i in preds:
+        for st in reversed(blocks[i]["st"]):
+            if st["k"] == "assign" and st["p"]["l"] == off and not st["p"].get("pr"):
+                stores[i] = st
+                break
+    if len(stores) != len(preds):
+        return
+    # other statements of the return block (storage markers) are harmless to skip
+    if any(st["k"] == "assign" and not st.get("inl") for st in blocks[rb]["st"]):
+        return
+    # `dest` must be consumed by the continuation block alone
+    for j, blk in enumerate(blocks):
+        if j != cont and j != call_bb and not (boff <= j < boff + ng) and _uses_local(blk, dest_l):
+            return
+    ct = cb["term"]
+    if ct["k"] == "switch":
+        assigned = [st["p"]["l"] for st in cb["st"] if st["k"] == "assign" and not st["p"].get("pr")]
+        for i, st in stores.items():
+            r_i = len(f["locals"])
+            f["locals"].append(copy.deepcopy(f["locals"][off]))
+            d_i = len(f["locals"])
+            f["locals"].append(copy.deepcopy(f["locals"][dest_l]))
+            m = {dest_l: d_i}
+            for a in assigned:
+                m[a] = len(f["locals"])
+                f["locals"].append(copy.deepcopy(f["locals"][a]))
+            nb = copy.deepcopy(cb)
+            _map_block(nb, m)
+            st["p"]["l"] = r_i
+            blocks[i]["st"].append({"k": "assign", "p": {"l": d_i}, "r": {"k": "use", "o": {"mv": {"l": r_i}}}, "ln": ln, "inl": True})
+            blocks[i]["term"] = {"k": "goto", "t": len(blocks), "ln": ln}
+            blocks.append(nb)
+    elif ct["k"] == "call" and "branch" in (ct.get("f") or "") and ct.get("t") is not None:
+        sw = blocks[ct["t"]]["term"]
+        if sw["k"] != "switch":
+            return
+        arms = {v: tb for v, tb in sw["targets"]}
+        for i, st in stores.items():
+            r = st["r"]
+            if r["k"] != "agg" or r.get("variant") not in ("Ok", "Some", "Err", "None"):
+                continue
+            tgt = arms.get(0 if r["variant"] in ("Ok", "Some") else 1)
+            if tgt is None:
+                continue
+            blocks[i]["st"].append({"k": "assign", "p": {"l": dest_l}, "r": {"k": "use", "o": {"mv": {"l": off}}}, "ln": ln, "inl": True})
+            # keep the call to branch on this path (its result feeds the arm), in a private copy of the continuation
+            nb = copy.deepcopy(cb)
+            nb["term"]["t"] = len(blocks) + 1
+            blocks[i]["term"] = {"k": "goto", "t": len(blocks), "ln": ln}
+            blocks.append(nb)
+            blocks.append({"cleanup": False, "st": copy.deepcopy(blocks[ct["t"]]["st"]), "term": {"k": "goto", "t": tgt, "ln": ln}})
 
 
 def _callee(t, H):
